@@ -26,6 +26,17 @@ for f in sorted(glob.glob(os.path.join(V, 'selftest', 'benign', '*.diff'))):
 for f in sorted(glob.glob(os.path.join(V, 'triage', 'planned_fixes', '00*.patch'))):
     n = os.path.basename(f)[:4]
     items.append(dict(name='revert:D' + n[2:], patch=f, reverse=True, kind='revert', expect=FIXPROPS[n]))
+if '--round2' in args:
+    root = args[args.index('--round2') + 1]
+    items = []
+    for d in sorted(glob.glob(os.path.join(root, 'C*'))):
+        pid = os.path.basename(d)
+        for x in ('r1', 'r2'):
+            pth = os.path.join(d, 'out', x, 'patch.diff')
+            if os.path.exists(pth): items.append(dict(name=f'refactor:{pid}{x}', patch=pth, reverse=False, kind='benign', expect=[]))
+        for x in ('b1', 'b2'):
+            pth = os.path.join(d, 'out', x, 'patch.diff')
+            if os.path.exists(pth): items.append(dict(name=f'seed2:{pid}{x}', patch=pth, reverse=False, kind='seeded', expect=[pid]))
 if only: items = [i for i in items if only in i['name']]
 
 def run_item(it):
@@ -69,6 +80,6 @@ for o in out:
     summary.append(dict(name=o['name'], kind=o['kind'], expect=o['expect'], compiles=o.get('compiles'), violation=viol, inconclusive=inc, ok=ok,
                         detail={p: r['first'] for p, r in o['results'].items() if r['verdict'] != 'silent'}))
 if not only and '--props' not in args:
-    json.dump(dict(claimed=claimed, items=summary), open(os.path.join(V, 'selftest', 'RESULTS.json'), 'w'), indent=1)
+    json.dump(dict(claimed=claimed, items=summary), open(os.path.join(V, 'selftest', 'RESULTS_round2.json' if '--round2' in args else 'RESULTS.json'), 'w'), indent=1)
 print(f'{len(out)} items, {bad} not as expected')
 sys.exit(1 if bad else 0)
